@@ -83,6 +83,11 @@ def run(prog, res):
   _v5(prog, res)
   numeric_opts.check(prog, res, [f for f in prog.all_functions()
                                  if f.parent is None])
+  from ..rules import seqkind
+  seqkind.selfcheck()
+  for f in prog.all_functions():
+    seqkind.check_function(prog, res, f)
+  res.floor('T3', 15)
   res.floor('N0', 250)
   res.floor('V1', 60)
   res.floor('V1s', 3)
